@@ -129,10 +129,15 @@ class Sym:
         return SymBool(a >= b)
 
 
+TENSOR_OPS = None     # set by qv.gen: arithmetic of a symbolic scalar with a symbolic-shape tensor (torch defers to us)
+
+
 class SymNum(Sym):
     __slots__ = ()
 
     def _bin(self, o, f, r=False):
+        if TENSOR_OPS is not None and type(o).__name__ == "GT":
+            return TENSOR_OPS(f, self, o, r)
         try:
             a, b = _num2(self, o)
         except Unmodelled:
@@ -167,6 +172,8 @@ class SymNum(Sym):
         raise Unmodelled("power %r of a symbolic scalar" % (n,))
 
     def _div(self, o, r=False):
+        if TENSOR_OPS is not None and type(o).__name__ == "GT":
+            return TENSOR_OPS(lambda a, b: a / b, self, o, r)
         num, den = (o, self) if r else (self, o)
         a, b = _num2(num, den)
         if z3.is_int(a):
